@@ -1102,6 +1102,74 @@ def B3(ctx, rule="B3"):
               "the Data-edge insertion is not guarded by has_path_connecting: update_edge would overwrite a user edge's kind; redundant edges are added")
 
 
+ADD_NODE = ("daggy::Dag::<N, E, Ix>::add_node", "petgraph::graph::Graph::<N, E, Ty, Ix>::add_node",
+            "petgraph::stable_graph::StableGraph::<N, E, Ty, Ix>::add_node")
+
+
+def ID_rules(ctx, rule="ID"):
+    """every FnId a public builder method hands back is the NodeIndex that add_node returned for that function:
+    returned scalar = add_node's result; returned array/collection = placeholder elements each overwritten (through an
+    iter_mut item) by an add_node result, or a collection of add_node results."""
+    fb, m, fl = ctx.fb, ctx.model, ctx.model.flow
+    n = 0
+    for b in fb.prod_bodies():
+        sig = fb.fns.get(b.id)
+        if not sig or b.kind == "closure" or not (sig.get("impl_self") or "").startswith("fn_graph_builder::FnGraphBuilder"):
+            continue
+        out = sig["output"]["s"]
+        if "NodeIndex" not in out or sig.get("vis") != "Public":
+            continue
+        n += 1
+        scalar = out.startswith("daggy::NodeIndex") or out.startswith("petgraph::graph::NodeIndex")
+        srcs = fl.sources_local(b, 0, () if scalar else ("E",))
+        where = b.id
+        bad, placeholders = [], []
+        for s_ in srcs:
+            if s_.kind == "alloc" and s_[4] in ADD_NODE:
+                continue
+            if not scalar and s_.kind == "alloc" and s_[1] == b.id and s_[4] in ("std::default::Default::default",):
+                placeholders.append(s_)
+                continue
+            if not scalar and s_.kind == "const":
+                placeholders.append(s_)
+                continue
+            bad.append(fmt_src(s_))
+        if not srcs:
+            bad.append("no source found")
+        over = []
+        if placeholders and not bad:
+            # every placeholder element is overwritten: `*slot = id` where slot is an iter_mut item of the returned array
+            # and id an add_node result, inside an unfiltered zip/for_each
+            pk = {(s_[1], s_[2]) for s_ in placeholders if s_.kind == "alloc"}
+            for cb in fb.prod_bodies():
+                if cb.kind != "closure" or not cb.id.startswith(b.id + "::"):
+                    continue
+                for bb, si, st in cb.stmts():
+                    if st["k"] != "assign" or st["pl"]["p"] != ["*"] or "NodeIndex" not in st["pl"].get("ty", ""):
+                        continue
+                    tsrc = fl.sources_local(cb, st["pl"]["l"], ())
+                    t_ok = bool(tsrc) and all(x.kind == "alloc" and (x[1], x[2]) in pk and "$item" in x[3] for x in tsrc)
+                    if not t_ok:
+                        continue
+                    vsrc = fl.sources_operand(cb, st["rv"]["op"]) if st["rv"]["k"] == "use" else frozenset()
+                    v_ok = bool(vsrc) and all(x.kind == "alloc" and x[4] in ADD_NODE for x in vsrc)
+                    uses = fl.closure_uses(cb)
+                    drv_ok = len(uses) == 1 and callee_path(uses[0][2]) == "std::iter::Iterator::for_each" and not cond_guards(cb, bb)
+                    sel = []
+                    if drv_ok:
+                        ub, ubb, ut, ai = uses[0]
+                        sel = [c[0] for c in iterator_chain(ctx, ub, expr_operand(ub, ut["args"][0])) if c[0] in SELECTIVE_ITER]
+                    over.append((v_ok and drv_ok and not sel, "slot <- %s%s" % (sorted(fmt_src(x) for x in vsrc)[:2], " narrowed by %s" % sel if sel else "")))
+            if not over:
+                bad.append("placeholder elements are never overwritten with add_node results")
+            elif not all(o[0] for o in over):
+                bad.append("placeholder overwrite not established: %s" % [o[1] for o in over if not o[0]])
+        ctx.check(not bad, rule, "returned-id|%s" % b.id.split("::")[-1], where,
+                  "the id(s) returned by %s are the NodeIndex values add_node produced for the inserted functions" % b.id.split("::")[-1],
+                  "%s returns ids that are not the ones add_node assigned: %s" % (b.id.split("::")[-1], "; ".join(bad)))
+    ctx.floor(rule, 2, "public FnGraphBuilder methods returning FnId(s)")
+
+
 PANICKY_BINOPS = ("SubWithOverflow", "MulWithOverflow", "Div", "Rem", "ShlWithOverflow", "ShrWithOverflow", "Shl", "Shr", "Sub", "Mul",
                   "SubUnchecked", "MulUnchecked", "ShlUnchecked", "ShrUnchecked")
 PANIC_CALLS = ("std::rt::begin_panic", "std::panicking::panic", "std::panicking::panic_fmt", "std::panicking::panic_explicit",
@@ -1468,6 +1536,14 @@ def D2(ctx, rule="D2"):
               "edge direction / list identity not established: %s" % why)
 
 
+def D2_coverage(ctx, rule="R6"):
+    """pair coverage only: the inner iteration ranges over list[outer position..] of the same list the outer iteration
+    enumerates, so every unordered pair of functions is examined once (the outer direction, which only matters for
+    non-redundancy, is not required here)"""
+    D2(ctx, rule)
+    ctx.obs = [o for o in ctx.obs if not (o.rule == rule and o.key == "outer-descending")]
+
+
 def loop_item_path(e):
     """e = ((next(..) as Some).0).f1.f2.. -> (bb of the next call, (f1, f2, ..))"""
     path = []
@@ -1605,6 +1681,44 @@ def D3(ctx, rule="D3"):
             ctx.bad(rule, "nondet|%s" % short(b.id), m.where(b, bb), "build() depends on a non-deterministic source: %s" % why)
     else:
         ctx.ok(rule, "deterministic", m.where(b0), "no iteration over a hash-ordered container, RNG, clock, thread, environment or address-derived value in the %d bodies / %d calls reachable from build()" % (len(build_reach(ctx)), n_calls))
+
+
+def nondet_sites(ctx, bodies):
+    """calls that read ambient state: RNG, clock, thread, environment, hash seeds / hash-ordered iteration, address-derived values"""
+    out = []
+    n_calls = 0
+    for b in bodies:
+        for bb, t in b.calls():
+            n_calls += 1
+            p = callee_path(t) or ""
+            if any(p.startswith(x) for x in NONDET_PAT):
+                out.append((b, bb, "call to %s" % p))
+            if p.startswith(("std::collections::HashMap", "std::collections::HashSet", "std::collections::hash_map", "std::collections::hash_set")):
+                if any(p.endswith(x) for x in HASH_ITER):
+                    out.append((b, bb, "iteration over a hash-ordered container (%s)" % p))
+                elif p.split("::")[-1] in ("new", "with_capacity", "default", "from_iter", "from"):
+                    out.append((b, bb, "construction of a RandomState-seeded container (%s): its iteration order depends on a per-thread seed counter that earlier runs advanced" % p))
+            if p == "std::iter::Iterator::collect" or p == "std::iter::FromIterator::from_iter":
+                ty = (t.get("dest") or {}).get("ty", "")
+                if ty.startswith(("std::collections::HashMap<", "std::collections::HashSet<")):
+                    out.append((b, bb, "collect() into a RandomState-seeded %s" % ty.split("<")[0]))
+        for bb, si, s in b.stmts():
+            if s["k"] == "assign" and s["rv"]["k"] == "cast" and "Expose" in s["rv"]["ck"]:
+                out.append((b, bb, "pointer-to-integer cast"))
+    return out, n_calls
+
+
+def N6(ctx, rule="N6"):
+    """nothing a run does depends on ambient state that earlier / concurrent runs change: no RNG, clock, thread id, environment,
+    hash-seeded container or address-derived value anywhere in the crate's non-test bodies"""
+    m = ctx.model
+    bodies = [b for b in ctx.fb.prod_bodies()]
+    bad, n_calls = nondet_sites(ctx, bodies)
+    if bad:
+        for b, bb, why in bad[:10]:
+            ctx.bad(rule, "ambient|%s" % short(b.id), m.where(b, bb), "a run depends on ambient state outside the graph and the call's own allocations: %s" % why)
+    else:
+        ctx.ok(rule, "no-ambient-state", "-", "no RNG, clock, thread, environment, hash-seeded container or address-derived value in %d bodies / %d calls of the crate" % (len(bodies), n_calls))
 
 
 def D4(ctx, rule="D4"):
@@ -2233,6 +2347,28 @@ def C13_rules(ctx, rule="K"):
             ctx.check(okp, rule + "4", "requeue|%s" % short(bx.id), swhere,
                       "whenever ranks[child] may be raised the child is (re)queued, so the raise propagates to its descendants",
                       "a raise of ranks[child] is not followed by queueing the child: descendants keep stale ranks")
+    # K6: neither the walk over the children of a popped node nor the worklist loop can be left before it is exhausted
+    for bx in m.reach_bodies(rc.id):
+        for st in stores_through_index(bx):
+            if not (set(fl.sources_operand(bx, st["container"])) & set(allocs)):
+                continue
+            skip = ()
+            for depth in range(3):
+                lr_ = loop_region(ctx, bx, st["bb"], skip_headers=skip)
+                if lr_ is None:
+                    break
+                ctx.check(not lr_["early_exits"], rule + "4", "walk-complete|%s|%d" % (short(bx.id), depth), m.where(bx, lr_["next_bb"]),
+                          "the loop around the rank update runs until its source is exhausted (every child is examined; the queue is drained)",
+                          "the loop around the rank update can be left early (%s): the remaining children are neither raised nor queued, so their ranks stay too low" % (
+                              ["bb%d->bb%d" % e_ for e_ in lr_["early_exits"]][:3]))
+                skip = skip + (lr_["header"],)
+            if bx.kind == "closure":
+                us_ = fl.closure_uses(bx)
+                drv = [callee_path(u[2]) or "?" for u in us_]
+                ctx.check(bool(us_) and all(d in ("std::iter::Iterator::for_each", "std::iter::Iterator::fold") or d in fb.bodies for d in drv),
+                          rule + "4", "walk-driver|%s" % short(bx.id), m.where(bx),
+                          "the per-child rank update is driven by %s over the children walk (no short-circuit)" % [d.split("::")[-1] for d in drv],
+                          "the per-child rank update is driven by %s, which can stop before every child was examined" % drv)
     ctx.check(n_store >= 1, rule + "3", "store-count", where, "%d store(s) to the ranks vector" % n_store, "no store to the ranks vector found")
     # K5: parametricity + ranks field is the pre-augmentation value
     sig = fb.fns.get(rc.id, {})
